@@ -5,6 +5,7 @@ CONSTANTS
   Kind <- K_2rdv_long_2rdv_inst
   HoldLock = FALSE
   OneShot = FALSE
+  Guarded = TRUE
   Spawned = 2
 INVARIANT Safety
 PROPERTIES EventuallyAllDone NoIdleStarvation
